@@ -240,8 +240,21 @@ pub fn configs(ctx: &Ctx) -> Stats {
         let mut rng = Rng::keyed(ctx.seed, "c05.configs", idx);
         let k = rng.usize(1, 5);
         let nrec = rng.usize(1, 60);
-        // FASTQ participates => records need at least one base
-        let recs = gen_records(&mut rng, nrec, k, None, 150, 1);
+        // FASTQ participates => records need at least one base; every other case also draws
+        // base-less records (FASTA only) so that flushes of batches without bases are exercised
+        let allow_empty = rng.chance(1, 2);
+        let mut recs = gen_records(&mut rng, nrec, k, None, 150, if allow_empty { 0 } else { 1 });
+        if allow_empty {
+            // make some records base-less on purpose, including runs at the very end
+            let tail = rng.usize(0, 3.min(recs.len()));
+            let n = recs.len();
+            for r in recs[n - tail..].iter_mut() {
+                r.seq.clear();
+            }
+            if n > 2 && rng.chance(1, 2) {
+                recs[n / 2].seq.clear();
+            }
+        }
         let norm = rng.chance(2, 3);
         let delim = rng.pick(&[" ", ",", "\t"]).to_string();
         let sc = Scratch::new(ctx, "c05c");
@@ -267,12 +280,15 @@ pub fn configs(ctx: &Ctx) -> Stats {
         };
         let variants = ctx.pick(6, 10);
         for v in 0..variants {
-            let cont = match rng.below(5) {
+            let cont = match rng.below(if allow_empty { 3 } else { 5 }) {
                 0 => Container::FastaSingle,
                 1 => Container::FastaWrapped(rng.usize(1, 90)),
                 2 => Container::FastaCrlf,
                 _ => Container::Fastq,
             };
+            if allow_empty {
+                st.class("input-with-base-less-records");
+            }
             let gz = match rng.below(4) {
                 0 => Some(GzLayout::Single(*rng.pick(&[0u32, 6]))),
                 1 => Some(GzLayout::Multi(rng.usize(2, 5))),
@@ -433,4 +449,57 @@ pub fn stress(ctx: &Ctx) -> Stats {
         }
     }
     st
+}
+
+/// files with thousands of short records of uneven length (block-wise / chunked parallel writers would
+/// reorder or drop rows only beyond some block size), both writers, threads 2..16
+pub fn manyrecs(ctx: &Ctx) -> Stats {
+    let n = ctx.n(6, 60);
+    par_cases(ctx, n, |idx, st| {
+        let mut rng = Rng::keyed(ctx.seed, "c05.manyrecs", idx);
+        let k = rng.usize(1, 3);
+        let nrec = rng.usize(1100, 7000);
+        let recs = many_records(&mut rng, nrec);
+        let norm = idx % 3 != 2;
+        let cfg = OligoCfg {
+            k,
+            threads: rng.usize(2, 16),
+            memory: *rng.pick(&[1usize, 1000, 100_000, 4 << 30]),
+            header: rng.chance(1, 2),
+            delim: " ".into(),
+            norm,
+            writer: if norm && idx % 2 == 0 { Writer::Mmap } else { Writer::Batch },
+        };
+        let sc = Scratch::new(ctx, "c05m");
+        let inp = write_input(&sc, "in", &recs, &Container::FastaSingle, None, &mut rng);
+        st.case(true, mix(idx) ^ hash_bytes(&recs[0].seq) ^ mix(nrec as u64));
+        st.class(&format!("writer={:?}", cfg.writer));
+        let case = || Json::obj().set("cfg", cfg.json()).set("n_records", Json::u(recs.len())).set("records", recs_json(&recs));
+        match run_plain(&sc, &inp, "out.kmers", &cfg) {
+            Ok(d) => {
+                if let Err((sig, msg)) = check_rows(&d, &recs, &cfg) {
+                    st.violate(&format!("{}:manyrecs", sig), msg, case());
+                }
+            }
+            Err((sig, msg)) => st.violate(&sig, msg, case()),
+        }
+        if idx % 7 == 0 {
+            st.sample(Json::obj().set("cfg", cfg.json()).set("n_records", Json::u(recs.len())));
+        }
+    })
+}
+
+/// thousands of short records with very uneven lengths and pairwise different content
+pub fn many_records(rng: &mut Rng, n: usize) -> Vec<Rec> {
+    (0..n)
+        .map(|i| {
+            let len = match rng.below(20) {
+                0 => rng.usize(500, 3000),
+                1 => 0,
+                _ => rng.usize(1, 80),
+            };
+            let class = *rng.pick(&[SeqClass::Uniform, SeqClass::MixedCaseU, SeqClass::IsolatedN, SeqClass::TwoLetter]);
+            Rec { id: format!("m{}", i), desc: None, seq: gen_seq(rng, class, len, true) }
+        })
+        .collect()
 }
